@@ -75,14 +75,17 @@ w("34", "C19", "overlapping selections modify the document", {"doc": {"d": [{"e"
 w("35", "C06", "lone sign as a slice bound raises ValueError", {"kind": "query", "text": "$[-:]", "docs": [[1]]})
 jp("36", "C01", "descendant shorthand for a name starting with _ rejected", Q(["desc", [["name", "_a"]]]), {"_a": 1, "b": {"_a": 2}}, "$.._a")
 w("37", "C11", "compound query cannot read a file object (read once per operand)", {"text": "$.a | $.b", "doc": {"a": 1, "b": 2}, "comp": [Q(N("a")), ["|", Q(N("b"))]]})
+w("39", "C11", "lazy intersections all filter by the last operand (late-bound generator variable)", {"text": "$.a & $.b & $.c", "doc": {"a": "x", "b": "y", "c": "x"}, "comp": [Q(N("a")), ["&", Q(N("b"))], ["&", Q(N("c"))]]})
 w("38", "C06", "patch target with a key marker raises KeyError", {"kind": "patch", "ops": [{"op": "remove", "path": "/#a"}], "docs": [{"a": 1}]})
 w("38", "C06", "patch target with an index marker raises ValueError", {"kind": "patch", "ops": [{"op": "add", "path": "/b/#0", "value": 1}], "docs": [{"b": [1, 2]}]})
 
 os.makedirs(os.path.join(HERE, "witnesses"), exist_ok=True)
 for fn in os.listdir(os.path.join(HERE, "witnesses")):
     os.unlink(os.path.join(HERE, "witnesses", fn))
-for i, x in enumerate(W):
-    name = "%s-%s-%02d.json" % (x["fix"], x["property"], i)
+seen = {}
+for x in W:
+    k = seen[(x["fix"], x["property"])] = seen.get((x["fix"], x["property"]), 0) + 1
+    name = "%s-%s-%d.json" % (x["fix"], x["property"], k)
     x["mechanism"] = "witness:" + x["what"]
     with open(os.path.join(HERE, "witnesses", name), "w") as f:
         json.dump(x, f, indent=1, ensure_ascii=True)
